@@ -80,6 +80,18 @@ def contains_quantifier(e, _seen=None):
     return False
 
 
+def _as_atom(cond):
+    """(atom, polarity) if cond is an uninterpreted boolean constant or its negation."""
+    pos = True
+    t = cond
+    if z3.is_not(t):
+        t = t.arg(0)
+        pos = False
+    if z3.is_app(t) and t.num_args() == 0 and z3.is_bool(t) and t.decl().kind() == z3.Z3_OP_UNINTERPRETED:
+        return t, pos
+    return None, True
+
+
 class Path:
     """State of one explored path."""
 
@@ -94,6 +106,8 @@ class Path:
         self.events: list = []  # ghost event trace (persist calls, ...)
         self.ghost: dict = {}
         self.trace: list = []  # human readable decision labels
+        self.atom_value: dict = {}  # decided uninterpreted boolean atoms (id -> bool)
+        self.atoms_in_pc: set = set()  # atoms mentioned by some assumption
 
     # ---- assumptions -------------------------------------------------------------------
     def assume(self, cond):
@@ -112,6 +126,22 @@ class Path:
         self.pc.append(cond)
         if not contains_quantifier(cond):
             self.pc_qf.append(cond)
+        a, pos = _as_atom(cond)
+        if a is not None:
+            self.atom_value[a.get_id()] = pos
+        else:
+            stack, seen = [cond], set()
+            while stack and len(seen) < 400:
+                t = stack.pop()
+                if t.get_id() in seen:
+                    continue
+                seen.add(t.get_id())
+                if z3.is_quantifier(t):
+                    stack.append(t.body())
+                elif z3.is_app(t):
+                    if t.num_args() == 0 and z3.is_bool(t) and t.decl().kind() == z3.Z3_OP_UNINTERPRETED:
+                        self.atoms_in_pc.add(t.get_id())
+                    stack.extend(t.children())
 
     def feasible(self, extra=None):
         s = self.explorer.feas_solver()
@@ -134,12 +164,18 @@ class Path:
             return True
         if z3.is_false(cond):
             return False
+        atom, positive = _as_atom(cond)
+        if atom is not None and atom.get_id() in self.atom_value:
+            return self.atom_value[atom.get_id()] == positive
         if self.pos < len(self.decisions):
             choice = self.decisions[self.pos]
             self.pos += 1
         else:
-            t_ok = self.feasible(cond)
-            f_ok = self.feasible(z3.Not(cond))
+            if atom is not None and atom.get_id() not in self.atoms_in_pc:
+                t_ok = f_ok = True  # an unconstrained fresh atom: both sides are feasible
+            else:
+                t_ok = self.feasible(cond)
+                f_ok = self.feasible(z3.Not(cond))
             if t_ok and f_ok:
                 self.explorer.push(self.decisions + [False])
                 choice = True
